@@ -242,6 +242,59 @@ func c22(repo string, out *fg.Out) error {
 		caps[n] = v
 	}
 
+	// ---- applyUpdateFileStruct indexes unconditionally (no `entry.Database != ""` guard)
+	uf, ud := fg.FindFunc(files, "ClusterFSM", "applyUpdateFileStruct")
+	if ud == nil {
+		return fmt.Errorf("applyUpdateFileStruct not found")
+	}
+	guarded, indexes := false, false
+	ast.Inspect(ud.Body, func(n ast.Node) bool {
+		switch x := n.(type) {
+		case *ast.IfStmt:
+			if uf.Text(x.Cond) == `entry.Database != ""` {
+				guarded = true
+			}
+		case *ast.AssignStmt:
+			if len(x.Lhs) == 1 && uf.Text(x.Lhs[0]) == "idx[entry.Path]" {
+				indexes = true
+			}
+		}
+		return true
+	})
+	if !indexes {
+		return fmt.Errorf("applyUpdateFileStruct: `idx[entry.Path] = struct{}{}` not found")
+	}
+	updateFileIndexesAll := !guarded
+	// ---- applyUpdateToken validates a changed name like validateTokenEntry does
+	tf, td := fg.FindFunc(files, "ClusterFSM", "applyUpdateToken")
+	if td == nil {
+		return fmt.Errorf("applyUpdateToken not found")
+	}
+	emptyRule, lenRule := false, false
+	ast.Inspect(td.Body, func(n ast.Node) bool {
+		x, ok := n.(*ast.IfStmt)
+		if !ok || tf.Text(x.Cond) != `field == "name"` {
+			return true
+		}
+		for _, st := range x.Body.List {
+			is, ok := st.(*ast.IfStmt)
+			if !ok || len(is.Body.List) == 0 {
+				continue
+			}
+			if _, ret := is.Body.List[len(is.Body.List)-1].(*ast.ReturnStmt); !ret {
+				continue
+			}
+			switch tf.Text(is.Cond) {
+			case `p.Name == ""`:
+				emptyRule = true
+			case `len(p.Name) > 256`:
+				lenRule = true
+			}
+		}
+		return true
+	})
+	updateTokenValidatesName := emptyRule && lenRule
+
 	w := &out.Lean
 	list := func(xs []string) string {
 		q := make([]string, len(xs))
@@ -283,7 +336,11 @@ func c22(repo string, out *fg.Out) error {
 	for _, n := range capNames {
 		fmt.Fprintf(w, "def %s : Nat := %d\n", strings.ToLower(n[:1])+n[1:], caps[n])
 	}
+	fmt.Fprintf(w, "def updateFileIndexesEveryDatabase : Bool := %v\n", updateFileIndexesAll)
+	fmt.Fprintf(w, "def updateTokenValidatesName : Bool := %v\n", updateTokenValidatesName)
 	fmt.Fprintf(w, "end Arc.Generated.C22\n")
+	out.JSON["updateFileIndexesEveryDatabase"] = updateFileIndexesAll
+	out.JSON["updateTokenValidatesName"] = updateTokenValidatesName
 	out.JSON["dispatch"] = table
 	out.JSON["per_function"] = per
 	out.JSON["caps"] = caps
